@@ -16,7 +16,8 @@ RULE = (
     "nested schema | config type) x route (attribute, constructor keyword, load_tree, document). Oracle: the "
     "stored value is (salt, digest, algorithm) with len(salt) == digest_size and digest == "
     "hashlib(salt + p) recomputed independently; challenge(p) returns and challenge(q) raises; two "
-    "assignments of p get different salts; a distinctive p (>= 12 bytes) occurs in no attribute of the value, "
+    "assignments of p get different salts, also when the process-wide random module is re-seeded with the same "
+    "value before each of them; a distinctive p (>= 12 bytes) occurs in no attribute of the value, "
     "in str()/repr(), to_tree() or any of the five dumps(); after dumps -> loads into a fresh configuration "
     "salt and digest are byte-identical and the challenges still succeed/fail; a document carrying the "
     "plaintext loads to a value with the same shape that verifies p and not q. Non-trivial = p non-ASCII or "
@@ -257,6 +258,24 @@ def run_case(case, R):
     val2 = get(cfg)
     if check_shape(val2, pb, "reassigned"):
         R.check(val2.salt != val.salt, "fresh-salt", "reassign", "two assignments of the same secret share a salt")
+
+    # a fresh salt does not come out of the seedable process-wide PRNG: an application (or a test fixture) that
+    # calls random.seed(k) must not get the same salt for the same secret again
+    import random
+    prng_state = random.getstate()
+    try:
+        salts = []
+        for _ in range(2):
+            random.seed(20240917)
+            other = schema()
+            obj = other
+            for k in path[:-1]:
+                obj = getattr(obj, k)
+            obj.pw = p
+            salts.append(getattr(get(other), "salt", None))
+    finally:
+        random.setstate(prng_state)
+    R.check(salts[0] != salts[1], "fresh-salt", "prng-reseeded", "after random.seed(k) the same secret gets the same salt again: the salt is predictable")
 
     # explicit salts: truncated to the digest size, too short rejected
     salt = case["salt"]
